@@ -127,3 +127,146 @@ SPEC_ENTRY = {'title': 'The PCI transport only uses capability windows that lie 
               ('C11_ops_nonvacuous', 'Proofs/PciProofs.v', 'ops_nonvacuous', None),
               ('C11_alignment_remark', 'Proofs/PciProofs.v', 'common_at_offset_4_refused', 'remark: align_of::<CommonCfg>() = 8, stricter than the 4-byte alignment the specification asks of the common structure: refused with Misaligned')],
  'examples': []}
+
+
+# ---------------------------------------------------------------------------------------------------------------------
+# appended: the x86-64 pKVM hypercall PCI transport (src/transport/x86_64.rs, x86_64/cam.rs, x86_64/hypercalls.rs, the
+# SomeTransport::HypPci arms): Model/HypPci.v, Proofs/HypPciProofs.v, Extract/HypPciIO.v, harness/src/scen/c11_hyp.rs
+PROPS_ENTRY['models'] += ['Model/HypPci.v']
+PROPS_ENTRY['assumptions'] += ['x86-64 hypercall transport (HypPciTransport, C11_hyp_*): same reference PCI function and the same reading of "names a BAR"; a hypercall is '
+ '(is_write, physical address, size, data); the values answered to read hypercalls are environment inputs, cut to the size asked for; there is no '
+ 'Hal::mmio_phys_to_virt: regions are physical, the alignment test is on the physical address',
+ 'HypPciTransport has NO Drop impl: dropping it (or SomeTransport::HypPci) issues no hypercall and does not reset the device (C11_hyp_drop_silent); '
+ 'the "resetting the device ... on drop" clause of the property is a statement about PciTransport only and is NOT claimed of the hypercall transport',
+ 'HypCam: the caller contract of HypCam::new is that the CAM is cam.size() bytes at phys_base inside the physical address space (phys_base + size <= '
+ '2^64); outside it the address addition wraps (release) or panics (debug) and nothing is claimed']
+PROPS_ENTRY['trusted_extra'] += ['x86-64 hypercall transport: `vmcall` cannot run in user space; with --cfg virtio_drivers_verif hyp_io_read / hyp_io_write hand (is_write, address, '
+ 'size, data) to the back end registered through src/verif.rs (corpus/proposals/hyp_hook.diff) instead of executing vmcall; everything above these '
+ 'two functions (HypIoRegion, HypPciTransport, HypCam, SomeTransport::HypPci) is the real code; the hypercall numbers and the register convention of '
+ '__vmcall_impl are not executed',
+ 'the regions of the transport HypPciTransport::new returned are read from its #[derive(Debug)] rendering (the fields are private) and judged by '
+ 'monitor 1132; independently, every later hypercall is judged against the allocated memory BARs the harness laid out (monitor 1142) and predicted '
+ 'from the transport the MODEL built (1140)']
+SPEC_ENTRY['imports'] += ['Model.HypPci', 'Proofs.HypPciProofs']
+SPEC_ENTRY['theorems'] += [('C11_hyp_region_is_pci_region',
+  'Proofs/HypPciProofs.v',
+  'hyp_region_check_eq',
+  'x86-64 hypercall transport: get_bar_region of src/transport/x86_64.rs IS get_bar_region of pci.rs with mmio_phys_to_virt = the identity (the '
+  'alignment test falls on the physical address), for each setting of the repair F19 = F4'),
+ ('C11_hyp_region_sound',
+  'Proofs/HypPciProofs.v',
+  'hyp_region_sound',
+  'repaired: a returned HypIoRegion implies memory BAR, address != 0, offset + length <= size in N, length >= size_of::<T>(), PHYSICAL address '
+  'aligned; the region is (address + offset mod 2^64, length)'),
+ ('C11_hyp_region_inside',
+  'Proofs/HypPciProofs.v',
+  'hyp_region_inside',
+  'for a BAR that does not wrap the address space the region is [address + offset, + length) inside [address, address + size)'),
+ ('C11_hyp_region_complete', 'Proofs/HypPciProofs.v', 'hyp_region_complete', 'every outcome of the repaired check by cases: which error when'),
+ ('C11_hyp_region_no_panic', 'Proofs/HypPciProofs.v', 'hyp_region_no_panic', None),
+ ('C11_hyp_region_prefix_refuted',
+  'Proofs/HypPciProofs.v',
+  'hyp_region_prefix_refuted',
+  'F19, the code as found (u64::from(offset + length), sum in u32): offset 0xfffffff0, length 0x48, BAR of 0x4000 bytes at 0xfe000000: release = '
+  'HypIoRegion { paddr: 0x1fdfffff0, size: 0x48 }, 4 GiB beyond the BAR; debug = panic; the repaired check refuses with BarOffsetOutOfRange in both'),
+ ('C11_hyp_region_prefix_partial',
+  'Proofs/HypPciProofs.v',
+  'hyp_region_prefix_partial',
+  'the old check coincides with the repaired one whenever offset + length < 2^32'),
+ ('C11_hyp_region_prefix_partial_debug',
+  'Proofs/HypPciProofs.v',
+  'hyp_region_prefix_partial_debug',
+  'in the debug profile the old check never returns a region that is not inside (it panics instead)'),
+ ('C11_hyp_new_refines',
+  'Proofs/HypPciProofs.v',
+  'hyp_new_refines',
+  'the state-threading transcription of the repaired HypPciTransport::new equals hyp_new_pure (specification selection of the C12 capability walk + '
+  'the check on what bar_info reports); the function is left untouched; no mmio_phys_to_virt request exists'),
+ ('C11_hyp_new_is_pci_new',
+  'Proofs/HypPciProofs.v',
+  'hyp_new_is_pci_new',
+  'HypPciTransport::new = PciTransport::new under the identity mapping: same selection, same errors, same panics, regions = (request address, '
+  'request length)'),
+ ('C11_hyp_windows',
+  'Proofs/HypPciProofs.v',
+  'hyp_new_windows',
+  'the analogue of C11_windows at FULL strength for the repaired code, for EVERY configuration space, capability list, bar / offset / length / '
+  'multiplier, both profiles: function unchanged, walk terminated, known device id, structures = the FIRST usable capability of each type, '
+  'multiplier even and the selected one, each region has the length of its structure, and every structure naming a well-formed BAR satisfies '
+  'hregion_spec: allocated memory BAR, offset + length <= size AS NATURAL NUMBERS, region = [address + offset, + length) inside the BAR and below '
+  '2^64, long enough (56 / 2 / 1 / 4) and PHYSICALLY aligned (8 / 2 / 1 / 4)'),
+ ('C11_hyp_new_total',
+  'Proofs/HypPciProofs.v',
+  'hyp_new_total',
+  '"either fails with an error or yields ...": never a panic when the selected structures name well-formed BARs; HNDiverge only for a cyclic list'),
+ ('C11_hyp_new_conforms',
+  'Proofs/HypPciProofs.v',
+  'hyp_new_conforms',
+  'the monitor hyp_new_conform_b (kind 1132, evaluated on the regions of the transport the implementation returned) holds of the model'),
+ ('C11_hyp_prefix_refuted_sum',
+  'Proofs/HypPciProofs.v',
+  'hyp_new_prefix_refuted_sum',
+  'F19 through the whole of new, on a concrete configuration space; the monitor rejects what the code as found does'),
+ ('C11_hyp_prefix_refuted_bar',
+  'Proofs/HypPciProofs.v',
+  'hyp_new_prefix_refuted_bar',
+  'F20, code as found: bar = 8 takes the ISR region from the expansion ROM register (0xfebd0008, in no BAR); bar = 60 overflows u8 (debug: panic)'),
+ ('C11_hyp_prefix_refuted_overrun',
+  'Proofs/HypPciProofs.v',
+  'hyp_new_prefix_refuted_overrun',
+  'F21, code as found: a vendor capability at 0xf4 with cap_len 16: u8 offset overflow (debug: panic; release: register 0 read as the length, a good '
+  'device refused)'),
+ ('C11_hyp_ops_are_pci_ops',
+  'Proofs/HypPciProofs.v',
+  'hexec_eq_exec',
+  'every Transport method of HypPciTransport except ack_interrupt (from_bits_truncate) and drop (none) issues exactly the accesses of PciTransport, '
+  'as hypercalls at the physical addresses, in the same order with the same widths and values; the assertion of HypIoRegion::write refuses a '
+  'notification exactly when the slice index of pci.rs does'),
+ ('C11_hyp_ops',
+  'Proofs/HypPciProofs.v',
+  'hyp_ops_conform',
+  'for every method, every argument in range, every list of answers, every transport with regions as new leaves them, both profiles: hyp_conform_b '
+  '(monitor 1141) holds of the hypercalls the model issues: inside the regions; common fields at the offsets of 4.1.4.3 with the field width and a '
+  'permitted direction; only the fields the method may touch; queue_select := q before any per-queue field; queue_enable := 1 last after size and '
+  'the three addresses; notify at queue_notify_off * multiplier or refused (a panic) without touching anything else; drop: nothing'),
+ ('C11_hyp_ops_inside', 'Proofs/HypPciProofs.v', 'hyp_ops_inside', None),
+ ('C11_hyp_ops_in_bars',
+  'Proofs/HypPciProofs.v',
+  'hyp_ops_in_bars',
+  'every hypercall of every method on the transport new returned lies, as natural numbers, inside the allocated memory BAR of a selected structure '
+  "(what monitor 1142 evaluates with the harness's own knowledge of the BARs)"),
+ ('C11_hyp_queue_set',
+  'Proofs/HypPciProofs.v',
+  'hyp_queue_set_trace',
+  'queue_select, queue_size, queue_desc, queue_driver, queue_device (one 8-byte hypercall each), queue_enable := 1 last'),
+ ('C11_hyp_notify', 'Proofs/HypPciProofs.v', 'hyp_notify_trace', None),
+ ('C11_hyp_outcomes', 'Proofs/HypPciProofs.v', 'hyp_outcomes', 'only notify can refuse'),
+ ('C11_hyp_drop_silent', 'Proofs/HypPciProofs.v', 'hyp_drop_silent', 'HypPciTransport has no Drop impl: no hypercall, no reset'),
+ ('C11_hyp_generation',
+  'Proofs/HypPciProofs.v',
+  'hyp_gen_conform',
+  'read_config_generation, repaired: ONE read of the config_generation byte at offset 21'),
+ ('C11_hyp_generation_prefix_refuted',
+  'Proofs/HypPciProofs.v',
+  'hyp_gen_prefix_refuted',
+  'F22, code as found: T inferred as u32: a FOUR-byte read at offset 21 (config_generation + queue_select + low byte of queue_size); no register of '
+  '4.1.4.3 is four bytes wide there: rejected by the table monitor for every transport'),
+ ('C11_hyp_new_regions_ok', 'Proofs/HypPciProofs.v', 'hyp_new_regions_ok', None),
+ ('C11_hyp_new_then_ops', 'Proofs/HypPciProofs.v', 'hyp_new_then_ops', 'both halves together'),
+ ('C11_hyp_some_transport',
+  'Proofs/HypPciProofs.v',
+  'hyp_some_transport_delegates',
+  'SomeTransport::HypPci is the identity wrapper in the model; the tie to src/transport/some.rs is the harness (a third of the scenarios run through '
+  'the wrapper)'),
+ ('C11_hyp_cam',
+  'Proofs/HypPciProofs.v',
+  'hyp_cam_spec',
+  'HypCam::read_word / write_word: one four-byte hypercall at phys_base + cam_offset, word-aligned, wholly inside the CAM; assertion violations '
+  'panic without a hypercall'),
+ ('C11_hyp_cam_conforms', 'Proofs/HypPciProofs.v', 'hyp_cam_conforms', 'the monitor (kind 1151) holds of the model'),
+ ('C11_hyp_windows_nonvacuous', 'Proofs/HypPciProofs.v', 'hyp_new_nonvacuous', None),
+ ('C11_hyp_ops_nonvacuous', 'Proofs/HypPciProofs.v', 'hyp_ops_nonvacuous', None),
+ ('C11_hyp_alignment_remark',
+  'Proofs/HypPciProofs.v',
+  'hyp_common_at_offset_4_refused',
+  'remark: align_of::<CommonCfg>() = 8 is tested on the physical address')]
